@@ -28,6 +28,7 @@ def handle (j : Json) : Except String Json := do
   | "ft_project" => Driver.ftProject j
   | "nest" => Driver.nest j
   | "nest_part" => Driver.nestPart j
+  | "nest_dyn" => Driver.nestDyn j
   | "legality" => Driver.legality j
   | "parse_spec" => Driver.parseSpec j
   | "prec" => Driver.prec j
